@@ -47,7 +47,9 @@ Record robj := mkRO {
   ro_hist : list N             (* atomic: every value stored so far (weak mode) *)
 }.
 
-Record rstate := mkRS { rs_threads : list rthread; rs_objs : list robj; rs_decls : list decl; rs_weak : bool }.
+Record rstate := mkRS { rs_threads : list rthread; rs_objs : list robj; rs_decls : list decl; rs_weak : bool;
+                        rs_atomic : bool;            (* stop_exploring .. explore regions run without interference *)
+                        rs_region : option nat }.    (* the thread inside such a region *)
 
 Definition robj_of_decl (d : decl) : robj :=
   match d with
@@ -61,7 +63,7 @@ Definition robj_of_decl (d : decl) : robj :=
 Definition rinit (weak : bool) (p : prog) : rstate :=
   mkRS (mapi (fun b code => mkRT (if Nat.eqb b 0 then RReady else RNotStarted) code 0 false [] [] false false None [] [] false)
              (p_bodies p))
-       (map robj_of_decl (p_decls p)) (p_decls p) weak.
+       (map robj_of_decl (p_decls p)) (p_decls p) weak false None.
 
 Definition ro_default : robj := mkRO 0%N None [] [] false false false [] false 0 [] false [].
 Definition rt_default : rthread := mkRT RDone [] 0 false [] [] false false None [] [] false.
@@ -69,9 +71,11 @@ Definition robj_get (s : rstate) (i : nat) : robj := nth i (rs_objs s) ro_defaul
 Definition rth_get (s : rstate) (i : nat) : rthread := nth i (rs_threads s) rt_default.
 
 Definition set_obj (s : rstate) (i : nat) (o : robj) : rstate :=
-  mkRS (rs_threads s) (list_set (rs_objs s) i o) (rs_decls s) (rs_weak s).
+  mkRS (rs_threads s) (list_set (rs_objs s) i o) (rs_decls s) (rs_weak s) (rs_atomic s) (rs_region s).
 Definition set_th (s : rstate) (i : nat) (t : rthread) : rstate :=
-  mkRS (list_set (rs_threads s) i t) (rs_objs s) (rs_decls s) (rs_weak s).
+  mkRS (list_set (rs_threads s) i t) (rs_objs s) (rs_decls s) (rs_weak s) (rs_atomic s) (rs_region s).
+Definition set_region (s : rstate) (r : option nat) : rstate :=
+  mkRS (rs_threads s) (rs_objs s) (rs_decls s) (rs_weak s) (rs_atomic s) r.
 
 Definition ro_with_val (o : robj) v := mkRO v (ro_owner o) (ro_readers o) (ro_waiters o) (ro_flag o) (ro_spur o) (ro_waiting o) (ro_q o) (ro_rx o) (ro_cnt o) (ro_slots o) (ro_live o) (if existsb (N.eqb v) (tl (ro_hist o)) then ro_hist o else ro_hist o ++ [v]).
 Definition ro_with_owner (o : robj) w := mkRO (ro_val o) w (ro_readers o) (ro_waiters o) (ro_flag o) (ro_spur o) (ro_waiting o) (ro_q o) (ro_rx o) (ro_cnt o) (ro_slots o) (ro_live o) (ro_hist o).
@@ -462,7 +466,9 @@ Definition rstep (s : rstate) (tid : nat) : rres :=
           | ITlsWith _ => done1 s tid t RUnit
           | ILazyGet k => done1 s tid t (RVal (N.of_nat (41 + k)))
           | IPanic => RPanic
-          | IExplore | IStopExploring | ISkipBranch => done1 s tid t RUnit
+          | IStopExploring => done1 (if rs_atomic s then set_region s (Some tid) else s) tid t RUnit
+          | IExplore => done1 (set_region s None) tid t RUnit
+          | ISkipBranch => done1 s tid t RUnit
           end
       end
   end.
@@ -515,7 +521,11 @@ Fixpoint renum (fuel : nat) (s : rstate) : list routcome :=
   match fuel with
   | 0 => [OFuel]
   | S f =>
-      let '(succ, pan) := moves s (seq 0 (length (rs_threads s))) in
+      let tids := match rs_region s with
+                  | Some t => match rstep s t with RDisabled => seq 0 (length (rs_threads s)) | _ => [t] end
+                  | None => seq 0 (length (rs_threads s))
+                  end in
+      let '(succ, pan) := moves s tids in
       let here := if pan then [OPanic] else [] in
       match succ with
       | [] =>
@@ -526,3 +536,10 @@ Fixpoint renum (fuel : nat) (s : rstate) : list routcome :=
   end.
 
 Definition ref_outcomes (weak : bool) (fuel : nat) (p : prog) : list routcome := renum fuel (rinit weak p).
+
+(* the interleavings in which every stop_exploring .. explore region runs as one block (SC atomics):
+   what an exploration that fixes the decisions inside the regions but still explores every decision
+   outside them must at least produce *)
+Definition ref_outcomes_regions (fuel : nat) (p : prog) : list routcome :=
+  let s := rinit false p in
+  renum fuel (mkRS (rs_threads s) (rs_objs s) (rs_decls s) false true None).
